@@ -84,7 +84,8 @@ static void print_ctx(HS* s)
   int nf = 0, np = 0;
   for (RE_FIBER* f = sc->re_fiber_pool.fibers.head; f != NULL; f = f->next) nf++;
   for (RE_FAST_EXEC_POSITION* p = sc->re_fast_exec_position_pool.head; p != NULL; p = p->next) np++;
-  fprintf(o, " fibers=%d/%d positions=%d\n", nf, sc->re_fiber_pool.fiber_count, np);
+  fprintf(o, " fibers=%d/%d positions=%d lasterr=%s\n", nf, sc->re_fiber_pool.fiber_count, np,
+          sc->last_error_string ? sc->last_error_string->identifier : "-");
 }
 
 static void hist_cmd(HS* s, char* line)
